@@ -167,6 +167,35 @@ func c04One(r *fw.Rec, id, x string) {
 			r.TallyN("reference_slots", "binding.global-name-tokens", len(gx))
 		}
 	}
+	// binding of locals inside function bodies: LLVM-valid input numbers its
+	// unnamed values the way the printer does, so every local (named or numbered)
+	// is written as often in the body lines of the printed module as in those of
+	// the input; a use bound to a neighbour of the same type changes the counts.
+	// Only for inputs LLVM's own printer accepts unchanged in this respect: no
+	// quoted or escaped local names, no type names used inside bodies.
+	if len(c.Problems) == 0 {
+		if y, pp := printGuard(m); pp == "" {
+			lx, okx := localTokensInBodies(x)
+			ly, oky := localTokensInBodies(y)
+			if okx && oky && len(lx) > 0 {
+				names := map[string]bool{}
+				for n := range lx {
+					names[n] = true
+				}
+				for n := range ly {
+					names[n] = true
+				}
+				for _, n := range fw.SortedKeys(names) {
+					if lx[n] != ly[n] {
+						r.Violate(fw.Violation{Key: "binding/" + id + "/local-name", Input: x,
+							What: fmt.Sprintf("%s is written %d times in the function bodies of the input and %d times in those of the printed module: a use is bound to another value of the function", n, lx[n], ly[n]), Observed: y})
+						break
+					}
+				}
+				r.TallyN("reference_slots", "binding.local-tokens-per-function", len(lx))
+			}
+		}
+	}
 	if total > 0 {
 		r.Nontrivial(x)
 	}
@@ -288,6 +317,65 @@ func c04TypedArrayConstants(text string, m *ir.Module) (name string, want, got i
 		}
 	}
 	return "", 0, 0
+}
+
+var (
+	reLocalTok     = regexp.MustCompile(`%[-a-zA-Z$._0-9]+`)
+	reLocalDefHead = regexp.MustCompile(`^\s*%[-a-zA-Z$._0-9]+ = `)
+)
+
+// localTokensInBodies counts the tokens `%x` on the lines of function
+// definitions (from `define` to the closing brace), keyed by function and
+// token. ok is false when the text has something the comparison cannot follow:
+// a quoted local name, a `%` token that is a type name, explicit labels or
+// numbers that are not in LLVM's sequence (the printer renumbers them).
+func localTokensInBodies(text string) (out map[string]int, ok bool) {
+	out = map[string]int{}
+	typeNames := map[string]bool{}
+	for _, loc := range reTypeDefLine.FindAllStringSubmatchIndex(text, -1) {
+		typeNames["%"+text[loc[2]:loc[3]]] = true
+	}
+	fn := ""
+	for _, line := range strings.Split(text, "\n") {
+		if strings.HasPrefix(line, "define ") {
+			if i := strings.Index(line, "@"); i >= 0 {
+				fn = line[i:]
+				if j := strings.IndexAny(fn, "( "); j >= 0 {
+					fn = fn[:j]
+				}
+			}
+		}
+		if fn == "" {
+			continue
+		}
+		if strings.Contains(line, `%"`) {
+			return nil, false
+		}
+		if strings.HasPrefix(line, "define ") {
+			// the header: parameters may be left unnumbered in the input and are
+			// written with their numbers by the printer
+			continue
+		}
+		l := reQuoted.ReplaceAllString(line, `""`)
+		if i := strings.Index(l, ";"); i >= 0 {
+			l = l[:i]
+		}
+		// uses only: the result `%x = ` at the head of an instruction may be left
+		// out in the input (implicit numbering) and is always written by the printer
+		if mm := reLocalDefHead.FindString(l); mm != "" {
+			l = l[len(mm):]
+		}
+		for _, tok := range reLocalTok.FindAllString(l, -1) {
+			if typeNames[tok] {
+				return nil, false
+			}
+			out[fn+" "+tok]++
+		}
+		if strings.HasPrefix(line, "}") {
+			fn = ""
+		}
+	}
+	return out, true
 }
 
 func typeNameTokens(text string) map[string]int {
